@@ -8,7 +8,7 @@ BASE_OFF = ("cd /repo && cargo nextest run --workspace --no-fail-fast --tool-con
 CHECKS = {
  "C09": dict(
    technique="static analysis: all-paths make/unmake balance dataflow over type-checked MIR (rustc_private driver), path counting of best_move emissions, panic-site inventory of the search thread",
-   text="Every CFG path of every function outside the board crate is explored in the product (block x outstanding makes x return kind); a path that returns with a move still made on a borrowed board is reported with its witness. This decides the take-back mechanism for every interruption point at once; it does not decide score equality. R3 (shared with C07.R4): the panic-site inventory of the search thread, because 'an interrupted search still answers with exactly one bestmove' fails if the thread dies between the interruption and the answer (Duration arithmetic, unwrap, indexing). R4: every go starts with cleared search flags (reset unconditional, called before the search), and nothing between an iteration's return and the test of the stop flag can set that flag, so the answer is the last completed iteration's.",
+   text="Every CFG path of every function outside the board crate is explored in the product (block x outstanding makes x return kind); a path that returns with a move still made on a borrowed board is reported with its witness. This decides the take-back mechanism for every interruption point at once; it does not decide score equality. R3 (shared with C07.R4): the panic-site inventory of the search thread, because 'an interrupted search still answers with exactly one bestmove' fails if the thread dies between the interruption and the answer (Duration arithmetic, unwrap, indexing). R4: every go starts with cleared search flags (reset unconditional, called before the search), and nothing between an iteration's return and the test of the stop flag can set that flag, so the answer is the last completed iteration's; the per-go node counter that paces the poll is restarted by every go (C16.R4).",
    note="Trusted: rustc's MIR construction and callee resolution, the JSON fact extractor, the ~100-line exploration. Assumes make/unmake are the only in-place board mutators used by the search (C03 checks they mirror each other). Unwind paths ignored.",
    ref="4/C09"),
  "C13": dict(
@@ -18,12 +18,12 @@ CHECKS = {
    ref="4/C13"),
  "C07": dict(
    technique="static analysis: path counting of best_move emissions on the MIR CFG, who-may-call over the resolved call graph, context-sensitive panic-site inventory of the search thread with constant folding / mask-shift bounds",
-   text="Decides two clauses for every input and schedule at once: exactly one UciTx::best_move call on every returning path of Search::go (and nobody else calls it), and no unreviewed bounds-check / unwrap / index / explicit panic / division site reachable in the search thread (each site folds away, is bounded, or carries a reviewed guard argument, some with machine-checked preconditions). R5: the transposition table lives no longer than one go with a searchmoves restriction can see. R6 (shared with C09.R1): every search exit has taken back every move it made, so the board a later go (sent without a new position) searches is the position last set. R7: a completed, non-aborted iteration is never discarded while no earlier result exists (zero / near-zero budgets). R8: search_negamax leaves without a move before searching a child only through reviewed exits when it is the root. R9: the command thread reaches the search only through the ordered message channel (no shared mutable state in engine_core types; stop is a message the running search honours). Does not decide timing behaviour beyond these structural conditions.",
+   text="Decides two clauses for every input and schedule at once: exactly one UciTx::best_move call on every returning path of Search::go (and nobody else calls it), and no unreviewed bounds-check / unwrap / index / explicit panic / division site reachable in the search thread (each site folds away, is bounded, or carries a reviewed guard argument, some with machine-checked preconditions). R5: the transposition table lives no longer than one go with a searchmoves restriction can see. R6 (shared with C09.R1): every search exit has taken back every move it made, so the board a later go (sent without a new position) searches is the position last set. R7: a completed, non-aborted iteration is never discarded while no earlier result exists (zero / near-zero budgets). R8: search_negamax leaves without a move before searching a child only through reviewed exits when it is the root. R9: the command thread reaches the search only through the ordered message channel (no shared mutable state in engine_core types; stop is a message the running search honours). R10: the move best_move returns comes from the accepted iteration's search result and from no fallback source. Does not decide timing behaviour beyond these structural conditions.",
    note="Trusted: rustc MIR and callee resolution, the extractor, the reviewed guard arguments in tables/panic_sites.json, the list of extern APIs that panic by contract (tables/panic_api.json); extern callees not listed are assumed total (printed in the evidence). Arithmetic-overflow asserts of the search are inventoried but not judged.",
    ref="4/C07"),
  "C12": dict(
    technique="static analysis: panic-site inventory over the resolved call graph of the FEN reader/writer with constant folding and reviewed guard arguments; reader/writer table agreement on compiler-evaluated constants",
-   text="Decides 'no input string makes the FEN parser panic' up to reviewed guard arguments tied to the FEN grammar: every Assert terminator and every panicking API call reachable from Fen::from_str, Bitboard::from(&Fen) and Fen::from(&Bitboard) is auto-discharged or reviewed by exact key; the clock-field sites require a machine-checked u32 guard in Fen::from_str. Structural agreement of reader and writer tables; extra conditions a reader puts on a castling right must be the king's and that wing's rook's home squares (geometry oracle); R6: the e.p. field reader decodes all 16 possible targets (general helper or complete literal table). R5: validate_rank answers Ok only after the square count was compared with 8 and the adjacent-digit scan ran to the end of the rank, every rank is validated, and from_str validates before answering Ok. Does not decide exact decoding of every FEN.",
+   text="Decides 'no input string makes the FEN parser panic' up to reviewed guard arguments tied to the FEN grammar: every Assert terminator and every panicking API call reachable from Fen::from_str, Bitboard::from(&Fen) and Fen::from(&Bitboard) is auto-discharged or reviewed by exact key; the clock-field sites require a machine-checked u32 guard in Fen::from_str. Structural agreement of reader and writer tables; extra conditions a reader puts on a castling right must be the king's and that wing's rook's home squares (geometry oracle); R7: the placement reader sets piece bits only from square_mask_from_index(file counter, rank index), and the castling flags are written only by reviewed functions. R6: the e.p. field reader decodes all 16 possible targets (general helper or complete literal table). R5: validate_rank answers Ok only after the square count was compared with 8 and the adjacent-digit scan ran to the end of the rank, every rank is validated, and from_str validates before answering Ok. Does not decide exact decoding of every FEN.",
    note="Trusted: rustc MIR, extractor, reviewed guard arguments (tables/panic_sites.json), panic API list; regex crate assumed to implement the pattern as written.",
    ref="4/C12"),
  "C15": dict(
@@ -33,12 +33,12 @@ CHECKS = {
    ref="4/C15"),
  "C03": dict(
    technique="static analysis: Move layout derived from getter/setter MIR, bit-level may-analysis with integer widths, make/unmake write-set and flag-mirror comparison, all-paths balance of probes",
-   text="Decides, for every clock value and move at once, structural necessary conditions of make/unmake being inverse: every undo field's setter can reach all bits of the field (abstract interpretation of the written expression), make and unmake write the same board fields, each castling-right flag is cleared/restored under the same predicate for the same player, castling is undone with swapped squares, saved = restored fields, probes are balanced on all paths; the castling-right bookkeeping is compared as a full truth table (16 predicate assignments) and - R6 - the placement change of unmake is the exact symbolic inverse of make's for every move kind (normal, promotion, e.p. both colours, four castlings), computed from all paths of both functions. Together these decide 'make followed by unmake restores placement, rights, e.p. square and clocks' at the level of the expressions the code writes; R7: the side to move and the full-move number are evaluated path by path for turn in {0,1}: make flips the side and adds the mover's colour whatever else holds (a saturating or conditional update is reported with the condition it branches on), and unmake run on make's result restores both; R8 (= C02.R7): every producer of moves saves what unmake restores. What remains undecided is that the Move fields hold what generation intended (C02).",
+   text="Decides, for every clock value and move at once, structural necessary conditions of make/unmake being inverse: every undo field's setter can reach all bits of the field (abstract interpretation of the written expression), make and unmake write the same board fields, each castling-right flag is cleared/restored under the same predicate for the same player, castling is undone with swapped squares, saved = restored fields, probes are balanced on all paths; the castling-right bookkeeping is compared as a full truth table (16 predicate assignments) and - R6 - the placement change of unmake is the exact symbolic inverse of make's for every move kind (normal, promotion, e.p. both colours, four castlings), computed from all paths of both functions. Together these decide 'make followed by unmake restores placement, rights, e.p. square and clocks' at the level of the expressions the code writes; R7: the side to move and the full-move number are evaluated path by path for turn in {0,1}: make flips the side and adds the mover's colour whatever else holds (a saturating or conditional update is reported with the condition it branches on), and unmake run on make's result restores both; R8 (= C02.R7): every producer of moves saves what unmake restores; R4: every undo field saved at generation is assigned back unchanged by unmake; the field layout (C02.R1, wide enough for clocks up to 4095) is checked here too. What remains undecided is that the Move fields hold what generation intended (C02).",
    note="Trusted: rustc MIR, the extractor, the path evaluator and bit-mask transfer functions (about 150 lines).",
    ref="4/C03"),
  "C10": dict(
    technique="static analysis: constant evaluation of trait constants per implementing type, exhaustive folding of every comparison that involves Bitboard.halfmove_clock over clock 0..4200 x side to move, dominance / post-dominance of history writes, region inspection of the repetition branch",
-   text="Decides that no comparison involving the ply counter - directly, inside an arithmetic expression or behind a helper, evaluated for every clock value 0..4200, both sides to move and every implementing heuristic - can select the fifty-move draw below 100 plies, that every node which expands children has recorded itself in the history first, that the position replay starts from an empty history, that the repetition test precedes every transposition-table probe (only the root and a clock guard may skip it), that a clock guard in front of the repetition test lets every clock >= 8 through, that the history is written before it is counted and after every replayed move, that the repetition threshold is exactly three and that the repetition value is built from the draw score / contempt / ply parity only. Does not decide repetition counting over arbitrary histories.",
+   text="Decides that no comparison involving the ply counter - directly, inside an arithmetic expression or behind a helper, evaluated for every clock value 0..4200, both sides to move and every implementing heuristic - can select the fifty-move draw below 100 plies, that every node which expands children has recorded itself in the history first, that the position replay starts from an empty history, that the repetition test precedes every transposition-table probe (only the root and a clock guard may skip it), that count_repetitions walks from start - 4 in steps of 2 down to max(0, start - clock) counting from 1 (R6, fail-closed on other idioms), that a clock guard in front of the repetition test lets every clock >= 8 through, that the history is written before it is counted and after every replayed move, that the repetition threshold is exactly three and that the repetition value is built from the draw score / contempt / ply parity only. Does not decide repetition counting over arbitrary histories.",
    note="Trusted: rustc const evaluation and MIR, the extractor. Assumes make adds exactly 1 to the clock per ply (C02.R3).",
    ref="4/C10"),
  "C14": dict(
@@ -60,22 +60,22 @@ CHECKS = {
  "C11": dict(
    level="proof",
    technique="static analysis: exhaustive comparison of compiler-evaluated piece-square tables, full truth-table enumeration of game_stage from MIR paths, affine-form comparison of the terminal scores and of the mate-distance formula (with make's move-number rule simulated ply by ply from its MIR paths)",
-   text="Finite and complete for the static evaluation: all 3x6x64 + 2x6x64 table entries satisfy B[s][p][sq^56] = -W[s][p][sq]; white/black are paired with the two tables at the same stage and each piece with its row; game_stage's truth table (2^4 rows) is invariant under swapping the players; the material term is f(white) - f(black); the two mate scores are exact negations, affine in the move number with the sign that prefers nearer mates; the colour factor folds to +1/-1; R5: the mate distance formula of score_from_value, read as an affine form, equals +N / -N for a mate in N for both colours when the move number of the mating position is obtained by simulating make's own side/number update ply by ply. Search-score symmetry for non-terminal scores is not decided.",
+   text="Finite and complete for the static evaluation: all 3x6x64 + 2x6x64 table entries satisfy B[s][p][sq^56] = -W[s][p][sq]; white/black are paired with the two tables at the same stage and each piece with its row; game_stage's truth table (2^4 rows) is invariant under swapping the players; the material term is f(white) - f(black); the two mate scores are exact negations, affine in the move number with the sign that prefers nearer mates; the colour factor folds to +1/-1; R5: the mate distance formula of score_from_value, read as an affine form, equals +N / -N for a mate in N for both colours when the move number of the mating position is obtained by simulating make's own side/number update ply by ply. R6: no `63 - square` rotation in the heuristic modules. Search-score symmetry for non-terminal scores is not decided.",
    note="Trusted base: rustc const evaluation + MIR, the extractor, the path enumerator and affine evaluator. Assumes PlayerState accessors are colour-blind (they take one PlayerState).",
    ref="4/C11"),
  "C02": dict(
    technique="static analysis: Move layout derived from getter/setter MIR, bit-level may-analysis, reader-set comparison, exhaustive path enumeration of the move constructor with a board-geometry oracle for the castling-right squares",
-   text="Decides structural necessary conditions of 'make produces the successor' for every position and move: field layout well-formed and disjoint, setters reach their fields, every recorded effect has its reader in make/unmake/zobrist_xor, make applies clock/e.p. correctly and, evaluated path by path for both colours, flips the side and adds the mover's colour to the move number unconditionally, the clock-reset flag is set exactly for pawn moves and captures (all 10^3 paths of make_move enumerated), and each castling-right-lost flag is set exactly for the rook/king home squares of the right colour (geometry oracle, both colours), never skipped on a path that emits the move; R6: for every move kind the placement change make performs (all 256 paths) is exactly the one the rules define (geometry oracle for castling rook squares and the e.p. victim square); R7: every function that emits a move has recorded piece, squares, side and both undo fields on every path to the push, and each zero-defaulting field on every path if on any. Does not decide that the generator fills the move fields with the right pieces/squares for every position (that is C01's domain).",
+   text="Decides structural necessary conditions of 'make produces the successor' for every position and move: field layout well-formed, disjoint and wide enough for each field's values (squares, pieces, clock 0..4095), setters reach their fields, every recorded effect has its reader in make/unmake/zobrist_xor, make applies clock/e.p. correctly and, evaluated path by path for both colours, flips the side and adds the mover's colour to the move number unconditionally, the clock-reset flag is set exactly for pawn moves and captures (all 10^3 paths of make_move enumerated), and each castling-right-lost flag is set exactly for the rook/king home squares of the right colour (geometry oracle, both colours), never skipped on a path that emits the move; R6: for every move kind the placement change make performs (all 256 paths) is exactly the one the rules define (geometry oracle for castling rook squares and the e.p. victim square); R7: every function that emits a move has recorded piece, squares, side and both undo fields on every path to the push, and each zero-defaulting field on every path if on any; a producer that always records PAWN always sets the clock-reset flag. Does not decide that the generator fills the move fields with the right pieces/squares for every position (that is C01's domain).",
    note="Trusted: rustc MIR, the extractor, path evaluator, geometry oracle; the reader table (Appendix A.1) is keyed by getter names.",
    ref="4/C02"),
  "C06": dict(
    technique="static analysis: compiler-evaluated Zobrist key material (distinctness, zero rows), folded castle_hash, call-graph field read sets, operand-level agreement of make / zobrist_xor / search",
-   text="Decides: all 781 keys non-zero and pairwise distinct with the two no-piece rows zero (exactly the condition for 'any single component change changes the hash', given the read set); the from-scratch hashes read placement/side/rights/e.p. and never the clocks; all 12 piece-colour combinations hashed with matching constants; e.p. key by file; make and zobrist_xor agree on castling squares, e.p. victim square and which move fields they read; the search threads hash ^ delta of the move it made; R5: for every path of zobrist_xor (768) and every completion of the castling-right predicates the path did not evaluate, the full delta toggles exactly one piece-square key per placement change of make for that move kind (same player, piece, square), the side key, the old/new e.p. keys and exactly the rights keys make clears, and the pawn delta is its pawn/side/e.p. part - i.e. incremental == recomputed is decided symbolically given the from-scratch hash's structure (R2).",
+   text="Decides: all 781 keys non-zero and pairwise distinct with the two no-piece rows zero (exactly the condition for 'any single component change changes the hash', given the read set); the from-scratch hashes read placement/side/rights/e.p. and never the clocks; all 12 piece-colour combinations hashed with matching constants; e.p. key by file; make and zobrist_xor agree on castling squares, e.p. victim square and which move fields they read; the search threads hash ^ delta of the move it made; R5: for every path of zobrist_xor (768) and every completion of the castling-right predicates the path did not evaluate, the full delta toggles exactly one piece-square key per placement change of make for that move kind (same player, piece, square), the side key, the old/new e.p. keys and exactly the rights keys make clears, and the pawn delta is its pawn/side/e.p. part - i.e. incremental == recomputed is decided symbolically given the from-scratch hash's structure (R2); the packed move the delta is computed from has disjoint fields wide enough for their values (C02.R1).",
    note="Trusted: rustc const evaluation + MIR, the extractor.",
    ref="4/C06"),
  "C05": dict(
    technique="static analysis: path enumeration of the loop-free check test on MIR, table classification from the evaluated constants, operand-level inspection of the colour arguments, path classification of the evaluator's terminal branch",
-   text="Decides the completeness and pairing of the reverse attack lookup (every attacker kind, right table, right piece set, attacking player's sets, king square and full occupancy; the pawn table of the defended colour) path by path: every path answering 'not attacked' has consulted all five attacker kinds or skipped one only under a test that its piece set is empty, every path answering 'attacked' is backed by a positive lookup, the colour arguments of is_valid / is_current_in_check / is_in_check / _is_in_check_by_bits, that neither _is_in_check_by_bits nor the check test answers without the lookups, and that mate scores are returned exactly when the side to move is in check and has no legal move (also on paths that never looked at one of the two facts: no draw rule takes precedence), other move-less positions being draws. Does not decide exactness over positions (relies on C04 for the tables).",
+   text="Decides the completeness and pairing of the reverse attack lookup (every attacker kind, right table, right piece set, attacking player's sets, king square and full occupancy; the pawn table of the defended colour) path by path: every path answering 'not attacked' has consulted all five attacker kinds or skipped one only under a test that its piece set is empty, every path answering 'attacked' is backed by a positive lookup, the colour arguments of is_valid / is_current_in_check / is_in_check / _is_in_check_by_bits, that neither _is_in_check_by_bits nor the check test answers without the lookups, and that mate scores are returned exactly when the side to move is in check and has no legal move (also on paths that never looked at one of the two facts: no draw rule takes precedence), other move-less positions being draws; the search tells the evaluator 'no legal move' only on evidence (C08.R3), and any hand-written set-wise step is wrap-free (R4 = C01.R8). Does not decide exactness over positions (relies on C04 for the tables).",
    note="Trusted: rustc MIR + const evaluation, the extractor, the path evaluator, the geometry oracle for classifying tables. Assumes both kings exist.",
    ref="4/C05"),
  "C16": dict(
@@ -90,7 +90,7 @@ CHECKS = {
    ref="4/C18"),
  "C01": dict(
    technique="static analysis: exhaustive path enumeration of castle_moves and make_move on MIR with a board-geometry oracle; sibling-call comparison of the two generators; arm-wise mirror comparison of colour branches",
-   text="Decides structural necessary conditions of exact move generation: castling is emitted under exactly the four conditions of the rules with the geometrically right squares and masks for both colours and wings; the capture/promotion generator is the full generator minus castling with the filter on and every piece kind paired with its table; promotions to exactly Q,R,B,N; a move is dropped iff quiet and filtered; black arms mirror white arms in shift direction, masks, tables and players; R6: generate_legal_moves puts every pseudo-legal move through is_move_legal (every filter/retain closure on every accepting path, every push of a hand-written loop), is_move_legal is make / is_valid / unmake, is_any_move_legal answers true only under a successful probe; the castling-right bookkeeping castle_moves relies on is checked with C02.R4/R5. R6 is a sufficient condition: a pin-aware generator that skips the probe soundly would have to be re-reviewed. R7: a rank mask that is not its own vertical mirror image is used in the generators only inside a branch on the side to move whose other arm uses the mirrored rank, or together with its mirror image. Does not decide that the generated set equals the FIDE set for every position (pins, e.p. legality are the legality filter's job: C03/C05).",
+   text="Decides structural necessary conditions of exact move generation: castling is emitted under exactly the four conditions of the rules with the geometrically right squares and masks for both colours and wings; the capture/promotion generator is the full generator minus castling with the filter on and every piece kind paired with its table; promotions to exactly Q,R,B,N; a move is dropped iff quiet and filtered; black arms mirror white arms in shift direction, masks, tables and players; R6: generate_legal_moves puts every pseudo-legal move through is_move_legal (every filter/retain closure on every accepting path, every push of a hand-written loop), is_move_legal is make / is_valid / unmake, is_any_move_legal answers true only under a successful probe; the castling-right bookkeeping castle_moves relies on is checked with C02.R4/R5. R6 is a sufficient condition: a pin-aware generator that skips the probe soundly would have to be re-reviewed. R7: a rank mask that is not its own vertical mirror image is used in the generators only inside a branch on the side to move whose other arm uses the mirrored rank, or together with its mirror image. R8: a set-wise step of an occupancy by one file (shift by 1, 7, 9) is pre-masked so that no bit wraps around the a/h edge. Does not decide that the generated set equals the FIDE set for every position (pins, e.p. legality are the legality filter's job: C03/C05).",
    note="Trusted: rustc MIR + const evaluation, the extractor, path evaluator, geometry oracle. The mirror rule judges only pairs it recognises (shifts by 8, u64 masks, +-8, players, per-square tables); other pairs are counted as not judged in the evidence.",
    ref="4/C01"),
  "C08": dict(
